@@ -12,6 +12,7 @@ PKGS=$(grep '^+++ b/' $OUT/mutant$N.diff | sed 's|^+++ b/||' | xargs -n1 dirname
 DEMOPKG=$(head -1 $OUT/demo${N}_test.go | grep -o 'pkg/[a-z/]*\|tools/[a-z/]*' | head -1 | sed 's|/zz$||; s|/$||')
 [ -z "$DEMOPKG" ] && DEMOPKG=$(echo $PKGS | awk '{print $1}' | sed 's|^\./||')
 TAGS=""; grep -q '^//go:build verif' $OUT/demo${N}_test.go && TAGS="-tags verif"
+head -3 $OUT/demo${N}_test.go | grep -q -- "-race" && TAGS="$TAGS -race"
 RUNRE=$(grep -o "^func Test[A-Za-z0-9_]*" $OUT/demo${N}_test.go | sed 's/func //' | tr '\n' '|' | sed 's/|$//')
 echo "pkgs: $PKGS demo pkg: $DEMOPKG tests: $RUNRE tags: $TAGS"
 # demo on the unchanged tree
